@@ -203,7 +203,13 @@ fn run_case(c: &Case) -> Obs {
     let outl = layout(2, &c.outbound);
     let state = Arc::new(Mutex::new(TcpState::new(rbytes, steps_of(&c.rsteps), rend, steps_of(&c.wsteps), steps_of(&c.fsteps), c.vectored)));
     let limit = 8 * (total + outl.wire.len()) + 4 * (c.rsteps.len() + c.wsteps.len() + c.fsteps.len()) + 256;
-    state.lock().unwrap().max_calls = 2 * limit;
+    {
+        let mut st = state.lock().unwrap();
+        // every socket call moves ≥ 1 byte, consumes a script step, or is one of the few final
+        // EOF / parked reads
+        st.max_calls = 2 * (total + outl.wire.len()) + 4 * (c.rsteps.len() + c.wsteps.len() + c.fsteps.len()) + 8 * c.outbound.len() + 64;
+        st.max_written = outl.wire.len() + 8;
+    }
     let (mut stream, handle) = TcpStream::from_stream(SimTcp(state.clone()), peer());
     let mut handle = Some(handle);
     let (flag, waker) = FlagWaker::new();
